@@ -24,6 +24,10 @@ type Case struct {
 	ModelS  string // canonical model outcome
 	Tag     string
 	Spec    map[string]string // property id -> "1" | "0:reason" (the Lean predicate evaluated on the REAL outcome)
+	// Note: how the container of this case came to be when that is more than "built from Cfg, fresh"
+	// (observing filters, requests served before, changes of the table after registration); Cfg is
+	// always the table in force when the request was dispatched
+	Note string
 }
 
 // SkippedBuild counts generated tables that Container.Add refused (F11).
@@ -38,6 +42,70 @@ func TakeHung() []string {
 	h := Hung
 	Hung = nil
 	return h
+}
+
+// Changed counts the tables that were changed after warm-up traffic.
+var Changed int
+
+// Change alters the table on the registered WebServices of b: RemoveRoute (needs dynamic routes) or a
+// late WebService.Route. It returns the table now in force, the table requests are drawn from (nothing
+// is ever removed from that one) and a description ("" = nothing was changed).
+func Change(r *rng.R, o Opts, b *Built, cur, gen Config) (Config, Config, string) {
+	var withRoutes []int
+	for i, s := range cur.Services {
+		if len(s.Routes) > 0 {
+			withRoutes = append(withRoutes, i)
+		}
+	}
+	if len(withRoutes) == 0 {
+		return cur, gen, ""
+	}
+	si := withRoutes[r.Intn(len(withRoutes))]
+	ws, svc := b.WS[si], cur.Services[si]
+	next := cloneCfg(cur)
+	if b.BO.Dynamic && r.Chance(2, 3) {
+		// RemoveRoute(path, method) takes the full path of the route: read it from the WebService
+		rts := ws.Routes()
+		if len(rts) != len(svc.Routes) {
+			return cur, gen, ""
+		}
+		j := r.Intn(len(rts))
+		if err := ws.RemoveRoute(rts[j].Path, rts[j].Method); err != nil {
+			return cur, gen, ""
+		}
+		var keep []RouteDecl
+		for k, rd := range svc.Routes {
+			if !(rts[k].Path == rts[j].Path && rts[k].Method == rts[j].Method) {
+				keep = append(keep, rd)
+			}
+		}
+		next.Services[si].Routes = keep
+		return next, gen, fmt.Sprintf("WebService %d (dynamic routes) RemoveRoute(%q, %q)", svc.ID, rts[j].Path, rts[j].Method)
+	}
+	// a late route: the template of a route of this WebService under another method, or a twin of it
+	maxID := 0
+	for _, s := range gen.Services {
+		for _, rd := range s.Routes {
+			if rd.ID >= maxID {
+				maxID = rd.ID + 1
+			}
+		}
+	}
+	rd := svc.Routes[r.Intn(len(svc.Routes))]
+	rd.ID = maxID
+	if r.Chance(2, 3) {
+		rd.Method = r.Pick(Methods[:5])
+	}
+	rd.Consumes, rd.Produces, rd.Conds, rd.Noct = pickMedia(r, o), pickMedia(r, o), nil, nil
+	rb := RouteBuilder(ws, svc, rd)
+	if b.BO.Observe >= 3 {
+		rb.Filter(observer("route-filter"))
+	}
+	ws.Route(rb)
+	next.Services[si].Routes = append(next.Services[si].Routes, rd)
+	g2 := cloneCfg(gen)
+	g2.Services[si].Routes = append(g2.Services[si].Routes, rd)
+	return next, g2, fmt.Sprintf("WebService %d gets another route by WebService.Route: %s %q (id %d)", svc.ID, rd.Method, rd.Rel, rd.ID)
 }
 
 // Lines are the two protocol lines that replay this case on the driver.
@@ -55,7 +123,21 @@ func Run(seed uint64, nCfg, perCfg int, o Opts) ([]*Case, error) {
 	for ci := 0; ci < nCfg; ci++ {
 		r := base.Fork(uint64(ci))
 		cfg := GenConfig(r, o)
-		cont, err := Build(cfg)
+		// how the table is put on the container, and whether it changes after warm-up traffic
+		var bo BuildOpts
+		changeAt := -1
+		if o.Observe && r.Chance(1, 3) {
+			bo.Observe = 1 + r.Intn(3)
+		}
+		if o.Changes && perCfg >= 8 && r.Chance(1, 4) {
+			bo.Dynamic = r.Chance(2, 3)
+			changeAt = perCfg/4 + r.Intn(perCfg/2)
+		}
+		built, err := BuildWith(cfg, bo)
+		var cont *restful.Container
+		if built != nil {
+			cont = built.C
+		}
 		if err != nil {
 			// Container.Add panics for some tables whose roots share a fixed prefix (that is C11's
 			// subject, finding F11); such a table cannot be dispatched at all and is skipped here.
@@ -68,15 +150,33 @@ func Run(seed uint64, nCfg, perCfg int, o Opts) ([]*Case, error) {
 		cfgLine := sx.K("cfg", sx.N(ci), cfg.Sx()).String()
 		lines = append(lines, cfgLine)
 		hung := false
+		cur, genCfg, note := &cfg, cfg, ""
+		if bo.Observe > 0 {
+			note = fmt.Sprintf("container built with observing pass-through filters (level %d: container%s%s); ", bo.Observe,
+				map[bool]string{true: ", every WebService"}[bo.Observe >= 2], map[bool]string{true: ", every route"}[bo.Observe >= 3])
+		}
 		for qi := 0; qi < perCfg && !hung; qi++ {
-			req := GenReq(r, o, cfg)
+			if qi == changeAt {
+				// the table changes on the registered WebServices, after warm-up traffic: from here on the
+				// requests are judged against the table now in force; they are still drawn for the routes
+				// that ever existed
+				next, gen, what := Change(r, o, built, *cur, genCfg)
+				if what != "" {
+					cur, genCfg = &next, gen
+					cfgLine = sx.K("cfg", sx.N(ci), next.Sx()).String()
+					lines = append(lines, cfgLine)
+					note += fmt.Sprintf("after %d requests on this container: %s; ", qi, what)
+					Changed++
+				}
+			}
+			req := GenReq(r, o, genCfg)
 			if o.Faults && r.Chance(1, 8) {
 				// fault traffic before the request that is judged: the same kind of request, but user code
 				// panics while it is served (the route function after it looked at its parameters, or an
 				// If-condition during route selection); now and then the container must also still accept a
 				// registration afterwards
 				kind := []string{"handler", "cond"}[r.Intn(2)]
-				Fault(cont, GenReq(r, o, cfg), kind)
+				Fault(cont, GenReq(r, o, genCfg), kind)
 				FaultsSent++
 				if r.Chance(1, 6) && !StillUsable(cont) {
 					Hung = append(Hung, fmt.Sprintf("after a request whose %s panicked, Container.Add/Remove did not return within 2 s (router %s); table: %s", map[string]string{"handler": "route function", "cond": "If-condition"}[kind], cfg.Router, cfg.Sx()))
@@ -85,7 +185,10 @@ func Run(seed uint64, nCfg, perCfg int, o Opts) ([]*Case, error) {
 				}
 			}
 			real := Dispatch(cont, req)
-			c := &Case{Cfg: &cfg, CfgLine: cfgLine, Req: req, Real: real, RealS: real.Sx().String()}
+			c := &Case{Cfg: cur, CfgLine: cfgLine, Req: req, Real: real, RealS: real.Sx().String()}
+			if note != "" {
+				c.Note = note + fmt.Sprintf("this is request %d on this container", qi+1)
+			}
 			c.ReqLine = sx.K("route", sx.N(len(cases)), req.Sx(), sx.K("real", real.Sx(), sx.H(real.SelPath), sx.N(real.Invocations))).String()
 			lines = append(lines, c.ReqLine)
 			cases = append(cases, c)
